@@ -2,7 +2,10 @@
 
 package sdf
 
-import "math/rand"
+import (
+	"fmt"
+	"math/rand"
+)
 
 // VerifSetRand replaces the library-private random source (used by the bezier sampler) so that the
 // verification harness owns every random answer.
@@ -17,4 +20,30 @@ func VerifThreadNames() []string {
 		n = append(n, k)
 	}
 	return n
+}
+
+// VerifQtDump lists the leaves of a polygon quadtree: box and clipped segments.
+func VerifQtDump(s SDF2) []string {
+	m, ok := s.(*MeshSDF2)
+	if !ok {
+		return nil
+	}
+	var out []string
+	var rec func(n *qtNode, path string)
+	rec = func(n *qtNode, path string) {
+		if n == nil {
+			return
+		}
+		if n.leaf != nil {
+			for _, li := range n.leaf {
+				out = append(out, fmt.Sprintf("%s box %v..%v seg %v -> %v", path, n.box.Min, n.box.Max, li.line[0], li.line[1]))
+			}
+			return
+		}
+		for i, c := range n.child {
+			rec(c, fmt.Sprintf("%s%d", path, i))
+		}
+	}
+	rec(m.qt, "")
+	return out
 }
